@@ -197,6 +197,9 @@ class Kernel(object):
         self.log = None
         self.time_jumps = []
         self.on_time_advance = None
+        self._spin = 0
+        self._spin_key = None
+        self.spin_limit = 20000
 
     # ---- task management -----------------------------------------------------------------------------
     def spawn(self, fn, *args, **kw):
@@ -260,8 +263,15 @@ class Kernel(object):
 
     def _reschedule(self, me):
         self.steps += 1
-        if self.steps > self.max_steps:
-            self.deadlock = [("step-limit", "max_steps exceeded")]
+        # livelock detector: the same task keeps yielding without blocking while virtual time stands still
+        if me is not None and me.state == READY and self._spin_key == (me.id, self.now):
+            self._spin += 1
+        else:
+            self._spin = 0
+            self._spin_key = (me.id if me is not None else None, self.now)
+        if self.steps > self.max_steps or self._spin > self.spin_limit:
+            why = "step-limit" if self.steps > self.max_steps else "livelock"
+            self.deadlock = [(why, "%s spins at virtual time %r (last yield %r)" % (me.name if me else None, self.now, self.last_tag))]
             nxt = None
         else:
             nxt = self._choose_next(me)
